@@ -1305,3 +1305,8 @@ fn finish_response(
     };
     Ok(builder.build())
 }
+
+#[cfg(kani)]
+mod verif_kani {
+    include!(concat!(env!("REPE_VERIF_KANI"), "/message.rs"));
+}
